@@ -44,6 +44,9 @@ def failures(sc):
     fs.append({"id": "input:data_empty_array", "kind": "input", "has_data": True, "data": "[]", "may_panic": True})
     fs.append({"id": "input:data_empty_object", "kind": "input", "has_data": True, "data": "{}", "may_panic": True})
     fs.append({"id": "input:eval_conflict_toplevel", "kind": "input", "profile": rd(os.path.join(c11, "eval_conflict_toplevel.yaml"))})
+    # a property path that is not a path: on some trees the path parser panics on it (C17's subject); the events sent
+    # before that are still judged (bracketing, prefix of the fault-free list)
+    fs.append({"id": "input:bad_path", "kind": "input", "profile": rd(os.path.join(c11, "bad_path.yaml")), "may_panic": True})
     for site in sc.census.get("fail_sites") or []:
         if "test_utils" in site:
             continue
